@@ -158,14 +158,25 @@ theorem want_of_run {rb : RB} {line col : Int} (hl : 0 ≤ line ∧ line < rb.li
 
 namespace GridTerm
 
-theorem erasech_cells (t : GridTerm) (n : Int) (m : MaybeBool) (hn : 1 ≤ n) (l c : Int) :
+theorem erasech_cells (t : GridTerm) (n : Int) (m : MaybeBool) (hn : 1 ≤ n) (hfit : t.col + n ≤ t.cols) (l c : Int) :
     (t.erasech n m).cells l c =
       if l = t.line ∧ t.col ≤ c ∧ c < t.col + n then
         { glyph := .blank, pen := t.pen, writes := (t.cells l c).writes + 1 }
       else t.cells l c := by
   unfold erasech
   rw [if_neg (by omega)]
-  cases m <;> rfl
+  have hmin : min t.col (t.cols - 1) = t.col := by omega
+  have hcell : (if l = t.line ∧ min t.col (t.cols - 1) ≤ c ∧ c < min t.col (t.cols - 1) + n ∧ c < t.cols then
+        ({ glyph := .blank, pen := t.pen, writes := (t.cells l c).writes + 1 } : TCell)
+      else t.cells l c) =
+      if l = t.line ∧ t.col ≤ c ∧ c < t.col + n then
+        { glyph := .blank, pen := t.pen, writes := (t.cells l c).writes + 1 }
+      else t.cells l c := by
+    rw [hmin]
+    by_cases h : l = t.line ∧ t.col ≤ c ∧ c < t.col + n
+    · rw [if_pos h, if_pos ⟨h.1, h.2.1, h.2.2, by omega⟩]
+    · rw [if_neg h, if_neg (fun h' => h ⟨h'.1, h'.2.1, h'.2.2.1⟩)]
+  cases m <;> exact hcell
 
 theorem erasech_line (t : GridTerm) (n : Int) (m : MaybeBool) : (t.erasech n m).line = t.line := by
   unfold erasech
@@ -179,18 +190,28 @@ theorem erasech_pen (t : GridTerm) (n : Int) (m : MaybeBool) : (t.erasech n m).p
   · rfl
   · cases m <;> rfl
 
-theorem erasech_col_yes (t : GridTerm) (n : Int) (hn : 1 ≤ n) : (t.erasech n .yes).col = t.col + n := by
+theorem erasech_cols (t : GridTerm) (n : Int) (m : MaybeBool) : (t.erasech n m).cols = t.cols := by
+  unfold erasech
+  split
+  · rfl
+  · cases m <;> rfl
+
+theorem erasech_col_yes (t : GridTerm) (n : Int) (hn : 1 ≤ n) (hfit : t.col + n < t.cols) :
+    (t.erasech n .yes).col = t.col + n := by
   unfold erasech
   rw [if_neg (by omega)]
+  show min (min t.col (t.cols - 1) + n) (t.cols - 1) = t.col + n
+  omega
 
 end GridTerm
 
 /-- `t'` is `t` with the `n` columns from `(line, col)` drawn as the buffer wants them and nothing else touched;
-    the cursor is still on the line. -/
+    the cursor is still on the line and the terminal has kept its width. -/
 structure Drawn (rb : RB) (line col n : Int) (t t' : GridTerm) : Prop where
   inside : ∀ c, col ≤ c → c < col + n → cellOK (want rb line c) (t.cells line c) (t'.cells line c) = true
   outside : ∀ l c, ¬ (l = line ∧ col ≤ c ∧ c < col + n) → t'.cells l c = t.cells l c
   line_eq : t'.line = line
+  cols_eq : t'.cols = t.cols
 
 theorem cellOK_glyph (g : Glyph) (p tp : Pen) (old : TCell) :
     cellOK (.glyph g p) old { glyph := g, pen := termSetpen tp p, writes := old.writes + 1 } = true := by
@@ -199,30 +220,35 @@ theorem cellOK_glyph (g : Glyph) (p tp : Pen) (old : TCell) :
 /-- The ERASE case. -/
 theorem erase_run {rb : RB} {line col : Int} (hl : 0 ≤ line ∧ line < rb.lines) (h0 : 0 ≤ col)
     (hr : RunAt rb line col) (hs : (rb.cell line col).state = .erase)
-    (t : GridTerm) (ht : t.line = line ∧ t.col = col) (m : MaybeBool) :
+    (t : GridTerm) (hc : rb.cols ≤ t.cols) (ht : t.line = line ∧ t.col = col) (m : MaybeBool) :
     Drawn rb line col (rb.cell line col).cols t
       (t.run [.setpen (rb.cell line col).pen, .erasech (rb.cell line col).cols m]) ∧
-    (m = .yes → (t.run [.setpen (rb.cell line col).pen, .erasech (rb.cell line col).cols m]).col =
-      col + (rb.cell line col).cols) := by
+    (m = .yes → col + (rb.cell line col).cols < t.cols →
+      (t.run [.setpen (rb.cell line col).pen, .erasech (rb.cell line col).cols m]).col =
+        col + (rb.cell line col).cols) := by
   have hpos := hr.pos
+  have hfit := hr.fits
   simp only [GridTerm.run, GridTerm.step]
   have e1 : (t.setpen (rb.cell line col).pen).line = line := ht.1
   have e2 : (t.setpen (rb.cell line col).pen).col = col := ht.2
   have e3 : (t.setpen (rb.cell line col).pen).cells = t.cells := rfl
   have e4 : (t.setpen (rb.cell line col).pen).pen = termSetpen t.pen (rb.cell line col).pen := rfl
-  generalize t.setpen (rb.cell line col).pen = t1 at e1 e2 e3 e4 ⊢
-  refine ⟨⟨?_, ?_, ?_⟩, ?_⟩
+  have e5 : (t.setpen (rb.cell line col).pen).cols = t.cols := rfl
+  generalize t.setpen (rb.cell line col).pen = t1 at e1 e2 e3 e4 e5 ⊢
+  have hf1 : t1.col + (rb.cell line col).cols ≤ t1.cols := by omega
+  refine ⟨⟨?_, ?_, ?_, ?_⟩, ?_⟩
   · intro c h1 h2
     rw [want_of_run hl h0 hr c h1 h2]
     simp only [wantOf, hs]
-    rw [GridTerm.erasech_cells _ _ _ hpos, if_pos (by omega), e3, e4]
+    rw [GridTerm.erasech_cells _ _ _ hpos hf1, if_pos (by omega), e3, e4]
     exact cellOK_glyph _ _ _ _
   · intro l c hn
-    rw [GridTerm.erasech_cells _ _ _ hpos, if_neg (by omega), e3]
+    rw [GridTerm.erasech_cells _ _ _ hpos hf1, if_neg (by omega), e3]
   · rw [GridTerm.erasech_line]; exact e1
-  · intro hm
+  · rw [GridTerm.erasech_cols]; exact e5
+  · intro hm hlt
     subst hm
-    rw [GridTerm.erasech_col_yes _ _ hpos]
+    rw [GridTerm.erasech_col_yes _ _ hpos (by omega)]
     omega
 
 /-! ## Printing one-column characters (the CHAR and LINE cases) -/
@@ -262,9 +288,9 @@ theorem printBytes_narrow (cs : List Ch) (hs : ∀ c ∈ cs, SelfDec c ∧ Utf8.
 
 /-- `setpen p`, then one print request with the bytes of one-column characters `cs`, at `(line, col)`. -/
 theorem narrow_print {line col : Int} (t : GridTerm) (ht : t.line = line ∧ t.col = col) (p : Pen) (cs : List Ch)
-    (hs : ∀ c ∈ cs, SelfDec c ∧ Utf8.wcwidth c.cp = 1) (hne : cs ≠ []) :
+    (hs : ∀ c ∈ cs, SelfDec c ∧ Utf8.wcwidth c.cp = 1) (hne : cs ≠ []) (hfit : col + cs.length ≤ t.cols) :
     let t' := t.run [.setpen p, .print (cs.flatMap (·.bytes)) 0 (cs.flatMap (·.bytes)).length]
-    t'.line = line ∧ t'.col = col + cs.length ∧
+    t'.line = line ∧ t'.col = col + cs.length ∧ t'.cols = t.cols ∧
     (∀ l c, ¬ (l = line ∧ col ≤ c ∧ c < col + cs.length) → t'.cells l c = t.cells l c) ∧
     (∀ i : Nat, i < cs.length → t'.cells line (col + i) =
       { glyph := .chars (cs.getD i ⟨[], 0, 0⟩).bytes, pen := termSetpen t.pen p,
@@ -282,12 +308,14 @@ theorem narrow_print {line col : Int} (t : GridTerm) (ht : t.line = line ∧ t.c
   have e2 : (t.setpen p).col = col := ht.2
   have e3 : (t.setpen p).cells = t.cells := rfl
   have e4 : (t.setpen p).pen = termSetpen t.pen p := rfl
-  generalize t.setpen p = t1 at e1 e2 e3 e4 ⊢
+  have e5 : (t.setpen p).cols = t.cols := rfl
+  generalize t.setpen p = t1 at e1 e2 e3 e4 e5 ⊢
   have hn := GridTerm.putChs_narrow (cs.map fun c => (⟨c.bytes, c.cp, 1⟩ : Ch))
     (by intro c hc; simp only [List.mem_map] at hc; obtain ⟨c', _, rfl⟩ := hc; rfl) t1
+    (by simp only [List.length_map]; omega)
   simp only [List.length_map] at hn
-  obtain ⟨h1, h2, _, _, _, _, h7, h8⟩ := hn
-  refine ⟨by rw [h1, e1], by rw [h2, e2], ?_, ?_⟩
+  obtain ⟨h1, h2, _, _, _, _, h6, h7, h8⟩ := hn
+  refine ⟨by rw [h1, e1], by rw [h2, e2], by rw [h6, e5], ?_, ?_⟩
   · intro l c hc
     rw [h7 l c (by rw [e1, e2]; exact hc), e3]
   · intro i hi
@@ -310,7 +338,7 @@ theorem glyph_table_facts : ∀ m, m < 256 → 1 ≤ m →
 /-- The CHAR case. -/
 theorem char_run {rb : RB} {line col : Int} (hl : 0 ≤ line ∧ line < rb.lines) (h0 : 0 ≤ col)
     (hr : RunAt rb line col) (hs : (rb.cell line col).state = .char)
-    (t : GridTerm) (ht : t.line = line ∧ t.col = col) :
+    (t : GridTerm) (hc : rb.cols ≤ t.cols) (ht : t.line = line ∧ t.col = col) :
     Drawn rb line col (rb.cell line col).cols t
       (t.run [.setpen (rb.cell line col).pen,
               .print (Utf8.put (rb.cell line col).cp.toNat) 0 (Utf8.put (rb.cell line col).cp.toNat).length]) ∧
@@ -322,10 +350,11 @@ theorem char_run {rb : RB} {line col : Int} (hl : 0 ≤ line ∧ line < rb.lines
   have hnp := narrow_print t ht (rb.cell line col).pen
     [⟨Utf8.put (rb.cell line col).cp.toNat, (rb.cell line col).cp.toNat, 1⟩]
     (by intro c hc; simp only [List.mem_singleton] at hc; subst hc; exact ⟨hok.1, hok.2⟩) (by simp)
+    (by have := hr.fits; simp only [List.length_singleton]; omega)
   simp only [List.flatMap_cons, List.flatMap_nil, List.append_nil, List.length_singleton] at hnp
-  obtain ⟨h1, h2, h3, h4⟩ := hnp
+  obtain ⟨h1, h2, h2c, h3, h4⟩ := hnp
   rw [hone]
-  refine ⟨⟨?_, ?_, h1⟩, by rw [h2]; rfl⟩
+  refine ⟨⟨?_, ?_, h1, h2c⟩, by rw [h2]; rfl⟩
   · intro c hc1 hc2
     have hc : c = col := by omega
     subst hc
@@ -443,15 +472,16 @@ theorem penSame_of_equiv (tp p0 p : Pen) (h : Pen.equiv p p0 = true) : penSame (
 /-- The LINE case. -/
 theorem line_run {rb : RB} {line col : Int} (hl : 0 ≤ line ∧ line < rb.lines) (h0 : 0 ≤ col)
     (htl : Tiled rb line col) (hlt : col < rb.cols) (hs : (rb.cell line col).state = .line)
-    (t : GridTerm) (ht : t.line = line ∧ t.col = col) :
+    (t : GridTerm) (hc : rb.cols ≤ t.cols) (ht : t.line = line ∧ t.col = col) :
     Drawn rb line col (lineBatch rb line col).length t
       (t.run [.setpen (rb.cell line col).pen,
               .print (batchBytes (lineBatch rb line col)) 0 (batchBytes (lineBatch rb line col)).length]) ∧
     (t.run [.setpen (rb.cell line col).pen,
             .print (batchBytes (lineBatch rb line col)) 0 (batchBytes (lineBatch rb line col)).length]).col =
       col + (lineBatch rb line col).length := by
-  obtain ⟨hb, _, hlen⟩ := lineBatch_isBatch htl hlt hs
-  generalize lineBatch rb line col = batch at hb hlen ⊢
+  obtain ⟨hb, hbt, hlen⟩ := lineBatch_isBatch htl hlt hs
+  have hble := hbt.le_cols
+  generalize lineBatch rb line col = batch at hb hlen hble ⊢
   rw [batchBytes_eq]
   have hfacts : ∀ c ∈ batch.map lineCh, SelfDec c ∧ Utf8.wcwidth c.cp = 1 := by
     intro c hc
@@ -473,9 +503,10 @@ theorem line_run {rb : RB} {line col : Int} (hl : 0 ≤ line ∧ line < rb.lines
       exact h2
   have hnp := narrow_print t ht (rb.cell line col).pen (batch.map lineCh) hfacts
     (by intro hc; rw [List.map_eq_nil_iff] at hc; rw [hc] at hlen; simp at hlen)
+    (by simp only [List.length_map]; omega)
   simp only [List.length_map] at hnp
-  obtain ⟨h1, h2, h3, h4⟩ := hnp
-  refine ⟨⟨?_, h3, h1⟩, h2⟩
+  obtain ⟨h1, h2, h2c, h3, h4⟩ := hnp
+  refine ⟨⟨?_, h3, h1, h2c⟩, h2⟩
   intro c hc1 hc2
   have hci : c = col + ((c - col).toNat : Int) := by omega
   have hi : (c - col).toNat < batch.length := by omega
@@ -497,22 +528,27 @@ theorem line_run {rb : RB} {line col : Int} (hl : 0 ≤ line ∧ line < rb.lines
 
 /-! ## One line of the flush -/
 
-/-- What the TEXT case has to achieve at a run start (discharged in `Proof/RBFlushTextRun.lean`). -/
+/-- What the TEXT case has to achieve at a run start (discharged in `Proof/RBFlushTextRun.lean`), on a terminal at
+    least as wide as the buffer. -/
 def TextRunOK (rb : RB) (line col : Int) : Prop :=
-  ∀ t : GridTerm, t.line = line ∧ t.col = col →
+  ∀ t : GridTerm, rb.cols ≤ t.cols → t.line = line ∧ t.col = col →
     Drawn rb line col (rb.cell line col).cols t (t.run (textReqs (rb.cell line col))) ∧
-    (t.run (textReqs (rb.cell line col))).col = col + (rb.cell line col).cols
+    (col + (rb.cell line col).cols < t.cols →
+      (t.run (textReqs (rb.cell line col))).col = col + (rb.cell line col).cols)
 
-theorem gotoIf_ready {line col phycol : Int} (t : GridTerm) (h1 : phycol ≤ col)
+theorem gotoIf_ready {line col phycol : Int} (t : GridTerm) (h0 : 0 ≤ col) (hlt : col < t.cols) (h1 : phycol ≤ col)
     (h2 : phycol = col → t.line = line ∧ t.col = col) :
     (t.run (gotoIf phycol line col)).line = line ∧ (t.run (gotoIf phycol line col)).col = col ∧
-    (t.run (gotoIf phycol line col)).cells = t.cells := by
+    (t.run (gotoIf phycol line col)).cells = t.cells ∧ (t.run (gotoIf phycol line col)).cols = t.cols := by
   unfold gotoIf
   by_cases h : phycol < col
-  · rw [if_pos h]; exact ⟨rfl, rfl, rfl⟩
+  · rw [if_pos h]
+    refine ⟨rfl, ?_, rfl, rfl⟩
+    show max 0 (min col (t.cols - 1)) = col
+    omega
   · rw [if_neg h]
     have := h2 (by omega)
-    exact ⟨this.1, this.2, rfl⟩
+    exact ⟨this.1, this.2, rfl, rfl⟩
 
 theorem andThen_fst (pre : List Req) (r : List Req × Outcome) : (andThen pre r).1 = pre ++ r.1 := rfl
 theorem andThen_snd (pre : List Req) (r : List Req × Outcome) : (andThen pre r).2 = r.2 := rfl
@@ -535,11 +571,14 @@ theorem drawn_then {rb : RB} {line col n : Int} (t t0 t1 t2 : GridTerm) (hn : 1 
   · intro l c hc
     rw [hout l c (by omega), hd.outside l c (by omega), h0]
 
+/-- One line of the flush on a terminal at least as wide as the buffer: wherever the cursor was (pending wrap
+    included), every cell of the line from `col` on is drawn as the buffer wants it and nothing else is touched. -/
 theorem flushCols_spec {rb : RB} {line : Int} (hl : 0 ≤ line ∧ line < rb.lines)
     (htext : ∀ col, 0 ≤ col → RunAt rb line col → (rb.cell line col).state = .text → TextRunOK rb line col) :
-    ∀ (fuel : Nat) (col phycol : Int) (t : GridTerm), Tiled rb line col → 0 ≤ col →
-      (rb.cols - col).toNat < fuel → phycol ≤ col → (phycol = col → t.line = line ∧ t.col = col) →
+    ∀ (fuel : Nat) (col phycol : Int) (t : GridTerm), Tiled rb line col → 0 ≤ col → rb.cols ≤ t.cols →
+      (rb.cols - col).toNat < fuel → phycol ≤ col → (phycol = col → col < rb.cols → t.line = line ∧ t.col = col) →
       (flushCols textReqs rb line fuel col phycol).2 = .ok ∧
+      (t.run (flushCols textReqs rb line fuel col phycol).1).cols = t.cols ∧
       (∀ c, col ≤ c → c < rb.cols →
         cellOK (want rb line c) (t.cells line c)
           ((t.run (flushCols textReqs rb line fuel col phycol).1).cells line c) = true) ∧
@@ -547,9 +586,9 @@ theorem flushCols_spec {rb : RB} {line : Int} (hl : 0 ≤ line ∧ line < rb.lin
         (t.run (flushCols textReqs rb line fuel col phycol).1).cells l c = t.cells l c) := by
   intro fuel
   induction fuel with
-  | zero => intro col phycol t _ _ hf; omega
+  | zero => intro col phycol t _ _ _ hf; omega
   | succ f ih =>
-    intro col phycol t htl h0 hf hp1 hp2
+    intro col phycol t htl h0 hcw hf hp1 hp2
     unfold flushCols
     by_cases hlt : col < rb.cols
     · rw [if_neg (fun hn => hn hlt)]
@@ -560,9 +599,9 @@ theorem flushCols_spec {rb : RB} {line : Int} (hl : 0 ≤ line ∧ line < rb.lin
       split
       · -- SKIP
         rename_i hs
-        have := ih (col + (rb.cell line col).cols) phycol t hnext (by omega) (by omega) (by omega) (by omega)
-        obtain ⟨i1, i2, i3⟩ := this
-        refine ⟨i1, ?_, ?_⟩
+        have := ih (col + (rb.cell line col).cols) phycol t hnext (by omega) hcw (by omega) (by omega) (by omega)
+        obtain ⟨i1, i0, i2, i3⟩ := this
+        refine ⟨i1, i0, ?_, ?_⟩
         · intro c hc1 hc2
           by_cases hc : c < col + (rb.cell line col).cols
           · rw [i3 line c (by omega), want_of_run hl h0 hr c hc1 hc]
@@ -572,65 +611,66 @@ theorem flushCols_spec {rb : RB} {line : Int} (hl : 0 ≤ line ∧ line < rb.lin
           exact i3 l c (by omega)
       · -- TEXT
         rename_i hs
-        obtain ⟨g1, g2, g3⟩ := gotoIf_ready t hp1 hp2
-        obtain ⟨hd, hcol⟩ := htext col h0 hr hs (t.run (gotoIf phycol line col)) ⟨g1, g2⟩
+        obtain ⟨g1, g2, g3, g4⟩ := gotoIf_ready t h0 (by omega) hp1 (fun h => hp2 h hlt)
+        obtain ⟨hd, hcol⟩ := htext col h0 hr hs (t.run (gotoIf phycol line col)) (by rw [g4]; exact hcw) ⟨g1, g2⟩
         rw [andThen_snd, andThen_fst, GridTerm.run_append, GridTerm.run_append]
         have := ih (col + (rb.cell line col).cols) (col + (rb.cell line col).cols)
-          ((t.run (gotoIf phycol line col)).run (textReqs (rb.cell line col))) hnext (by omega) (by omega)
-          (by omega) (fun _ => ⟨hd.line_eq, hcol⟩)
-        obtain ⟨i1, i2, i3⟩ := this
-        exact ⟨i1, drawn_then t _ _ _ hpos hfit g3 hd i2 i3⟩
+          ((t.run (gotoIf phycol line col)).run (textReqs (rb.cell line col))) hnext (by omega)
+          (by rw [hd.cols_eq, g4]; exact hcw) (by omega)
+          (by omega) (fun _ hl' => ⟨hd.line_eq, hcol (by rw [g4]; omega)⟩)
+        obtain ⟨i1, i0, i2, i3⟩ := this
+        exact ⟨i1, by rw [i0, hd.cols_eq, g4], drawn_then t _ _ _ hpos hfit g3 hd i2 i3⟩
       · -- ERASE
         rename_i hs
-        obtain ⟨g1, g2, g3⟩ := gotoIf_ready t hp1 hp2
+        obtain ⟨g1, g2, g3, g4⟩ := gotoIf_ready t h0 (by omega) hp1 (fun h => hp2 h hlt)
         generalize hm : eraseMoveend rb line col (rb.cell line col) = me
-        obtain ⟨hd, hcol⟩ := erase_run hl h0 hr hs (t.run (gotoIf phycol line col)) ⟨g1, g2⟩
+        obtain ⟨hd, hcol⟩ := erase_run hl h0 hr hs (t.run (gotoIf phycol line col)) (by rw [g4]; exact hcw) ⟨g1, g2⟩
           (if me = true then .yes else .maybe)
         rw [andThen_snd, andThen_fst, GridTerm.run_append, GridTerm.run_append]
         have := ih (col + (rb.cell line col).cols) (if me = true then col + (rb.cell line col).cols else -1)
           ((t.run (gotoIf phycol line col)).run
             [.setpen (rb.cell line col).pen, .erasech (rb.cell line col).cols (if me = true then .yes else .maybe)])
-          hnext (by omega) (by omega) (by split <;> omega)
+          hnext (by omega) (by rw [hd.cols_eq, g4]; exact hcw) (by omega) (by split <;> omega)
           (by
-            intro hpe
+            intro hpe hl'
             cases me with
-            | true => exact ⟨hd.line_eq, hcol (by simp)⟩
+            | true => exact ⟨hd.line_eq, hcol (by simp) (by rw [g4]; omega)⟩
             | false => simp at hpe; omega)
-        obtain ⟨i1, i2, i3⟩ := this
-        exact ⟨i1, drawn_then t _ _ _ hpos hfit g3 hd i2 i3⟩
+        obtain ⟨i1, i0, i2, i3⟩ := this
+        exact ⟨i1, by rw [i0, hd.cols_eq, g4], drawn_then t _ _ _ hpos hfit g3 hd i2 i3⟩
       · -- LINE
         rename_i hs
-        obtain ⟨g1, g2, g3⟩ := gotoIf_ready t hp1 hp2
+        obtain ⟨g1, g2, g3, g4⟩ := gotoIf_ready t h0 (by omega) hp1 (fun h => hp2 h hlt)
         obtain ⟨hb, hbt, hblen⟩ := lineBatch_isBatch htl hlt hs
         have hbc := batchCols_of_isBatch _ _ hb
-        obtain ⟨hd, hcol⟩ := line_run hl h0 htl hlt hs (t.run (gotoIf phycol line col)) ⟨g1, g2⟩
+        obtain ⟨hd, hcol⟩ := line_run hl h0 htl hlt hs (t.run (gotoIf phycol line col)) (by rw [g4]; exact hcw) ⟨g1, g2⟩
         rw [andThen_snd, andThen_fst, GridTerm.run_append, GridTerm.run_append, hbc]
         have hle := hbt.le_cols
         have := ih (col + (lineBatch rb line col).length) (col + (lineBatch rb line col).length)
           ((t.run (gotoIf phycol line col)).run
             [.setpen (rb.cell line col).pen,
              .print (batchBytes (lineBatch rb line col)) 0 (batchBytes (lineBatch rb line col)).length])
-          hbt (by omega) (by omega) (by omega) (fun _ => ⟨hd.line_eq, hcol⟩)
-        obtain ⟨i1, i2, i3⟩ := this
-        exact ⟨i1, drawn_then t _ _ _ (by omega) hle g3 hd i2 i3⟩
+          hbt (by omega) (by rw [hd.cols_eq, g4]; exact hcw) (by omega) (by omega) (fun _ _ => ⟨hd.line_eq, hcol⟩)
+        obtain ⟨i1, i0, i2, i3⟩ := this
+        exact ⟨i1, by rw [i0, hd.cols_eq, g4], drawn_then t _ _ _ (by omega) hle g3 hd i2 i3⟩
       · -- CHAR
         rename_i hs
-        obtain ⟨g1, g2, g3⟩ := gotoIf_ready t hp1 hp2
-        obtain ⟨hd, hcol⟩ := char_run hl h0 hr hs (t.run (gotoIf phycol line col)) ⟨g1, g2⟩
+        obtain ⟨g1, g2, g3, g4⟩ := gotoIf_ready t h0 (by omega) hp1 (fun h => hp2 h hlt)
+        obtain ⟨hd, hcol⟩ := char_run hl h0 hr hs (t.run (gotoIf phycol line col)) (by rw [g4]; exact hcw) ⟨g1, g2⟩
         rw [andThen_snd, andThen_fst, GridTerm.run_append, GridTerm.run_append]
         have := ih (col + (rb.cell line col).cols) (col + (rb.cell line col).cols)
           ((t.run (gotoIf phycol line col)).run
             [.setpen (rb.cell line col).pen,
              .print (Utf8.put (rb.cell line col).cp.toNat) 0 (Utf8.put (rb.cell line col).cp.toNat).length])
-          hnext (by omega) (by omega) (by omega) (fun _ => ⟨hd.line_eq, hcol⟩)
-        obtain ⟨i1, i2, i3⟩ := this
-        exact ⟨i1, drawn_then t _ _ _ hpos hfit g3 hd i2 i3⟩
+          hnext (by omega) (by rw [hd.cols_eq, g4]; exact hcw) (by omega) (by omega) (fun _ _ => ⟨hd.line_eq, hcol⟩)
+        obtain ⟨i1, i0, i2, i3⟩ := this
+        exact ⟨i1, by rw [i0, hd.cols_eq, g4], drawn_then t _ _ _ hpos hfit g3 hd i2 i3⟩
       · -- CONT: excluded by RunAt
         rename_i hs
         exact absurd hs hr.notCont
     · rw [if_pos hlt]
       have := htl.le_cols
-      refine ⟨rfl, ?_, ?_⟩
+      refine ⟨rfl, rfl, ?_, ?_⟩
       · intro c hc1 hc2; omega
       · intro l c _; rfl
 
@@ -641,7 +681,7 @@ theorem cellOK_keep (c : TCell) : cellOK .keep c c = true := by simp [cellOK]
 theorem flushLines_spec {rb : RB} (hwf : FlushWF rb)
     (htext : ∀ line col, 0 ≤ line → line < rb.lines → 0 ≤ col → RunAt rb line col →
       (rb.cell line col).state = .text → TextRunOK rb line col) :
-    ∀ (n : Nat) (line : Int) (t : GridTerm), 0 ≤ line → line + n ≤ rb.lines →
+    ∀ (n : Nat) (line : Int) (t : GridTerm), 0 ≤ line → line + n ≤ rb.lines → rb.cols ≤ t.cols →
       (flushLines textReqs rb n line).2 = .ok ∧
       (∀ l c, line ≤ l → l < line + n → 0 ≤ c → c < rb.cols →
         cellOK (want rb l c) (t.cells l c) ((t.run (flushLines textReqs rb n line).1).cells l c) = true) ∧
@@ -650,19 +690,19 @@ theorem flushLines_spec {rb : RB} (hwf : FlushWF rb)
   intro n
   induction n with
   | zero =>
-    intro line t _ _
+    intro line t _ _ _
     refine ⟨rfl, ?_, ?_⟩
     · intro l c h1 h2; omega
     · intro l c _; rfl
   | succ k ih =>
-    intro line t h0 h1
+    intro line t h0 h1 hcw
     have hl : 0 ≤ line ∧ line < rb.lines := by omega
-    obtain ⟨c1, c2, c3⟩ := flushCols_spec hl (fun col hc hr hs => htext line col hl.1 hl.2 hc hr hs)
-      (rb.cols.toNat + 1) 0 (-1) t (hwf line hl.1 hl.2) (by omega) (by omega) (by omega) (by omega)
+    obtain ⟨c1, c0, c2, c3⟩ := flushCols_spec hl (fun col hc hr hs => htext line col hl.1 hl.2 hc hr hs)
+      (rb.cols.toNat + 1) 0 (-1) t (hwf line hl.1 hl.2) (by omega) hcw (by omega) (by omega) (by omega)
     unfold flushLines
     simp only [c1, andThen_fst, andThen_snd, GridTerm.run_append]
     obtain ⟨i1, i2, i3⟩ := ih (line + 1) (t.run (flushCols textReqs rb line (rb.cols.toNat + 1) 0 (-1)).1)
-      (by omega) (by omega)
+      (by omega) (by omega) (by rw [c0]; exact hcw)
     refine ⟨i1, ?_, ?_⟩
     · intro l c hl1 hl2 hc1 hc2
       by_cases hll : l = line
@@ -675,16 +715,16 @@ theorem flushLines_spec {rb : RB} (hwf : FlushWF rb)
     · intro l c hn
       rw [i3 l c (by omega), c3 l c (by omega)]
 
-/-- The whole flush, given the TEXT case. -/
+/-- The whole flush, given the TEXT case, on a terminal at least as wide as the buffer. -/
 theorem flush_spec_of_text {rb : RB} (hwf : FlushWF rb)
     (htext : ∀ line col, 0 ≤ line → line < rb.lines → 0 ≤ col → RunAt rb line col →
-      (rb.cell line col).state = .text → TextRunOK rb line col) (t : GridTerm) :
+      (rb.cell line col).state = .text → TextRunOK rb line col) (t : GridTerm) (hcw : rb.cols ≤ t.cols) :
     (flushToTerm rb).out = .ok ∧
     ∀ l c, cellOK (want rb l c) (t.cells l c) ((t.run (flushToTerm rb).reqs).cells l c) = true := by
   unfold flushToTerm flushWith
   simp only
   by_cases hlines : 0 ≤ rb.lines
-  · obtain ⟨h1, h2, h3⟩ := flushLines_spec hwf htext rb.lines.toNat 0 t (by omega) (by omega)
+  · obtain ⟨h1, h2, h3⟩ := flushLines_spec hwf htext rb.lines.toNat 0 t (by omega) (by omega) hcw
     refine ⟨h1, ?_⟩
     intro l c
     by_cases hg : rb.inGrid l c
